@@ -829,10 +829,9 @@ def _schema_class_ids(d: dict) -> dict:
 def check_deep_identity(sr: SchemaRun, d: dict, inst, back, entry: str):
     """at EVERY position of the decoded value (through dataclass fields, lists, tuples, dict values, any depth): an object of a
     schema class (CLASSES) in the encoded value comes back as an object of that very class.  Only for holders the schema demands an
-    exact round trip of (ROUNDTRIP) or lists positions of (IDENT): no lossy type in between."""
+    exact round trip of (ROUNDTRIP): no lossy type (pass_through, strategies, unions decoding to another member) in between."""
     import dataclasses
-    holders = list(d.get("ROUNDTRIP", [])) + [h for h, _, _ in d.get("IDENT", [])]
-    if not any(type(inst) is h for h in holders):
+    if not any(type(inst) is h for h in d.get("ROUNDTRIP", [])):
         return
     known = _schema_class_ids(d)
     if not known:
